@@ -4,7 +4,6 @@ import (
 	"encoding/json"
 	"fmt"
 	"os"
-	"path/filepath"
 	"reflect"
 	"strconv"
 	"strings"
@@ -15,6 +14,7 @@ import (
 
 	"verif/harness/bx"
 	"verif/harness/gen"
+	"verif/harness/hx"
 	"verif/harness/ref"
 	"verif/harness/stats"
 	"verif/harness/uni"
@@ -189,31 +189,13 @@ func runImpl(text string, d interface{}, o Opts) implResult {
 
 // ---- violation reporting / replay files ----
 
-type failer interface {
-	Fatalf(format string, args ...any)
-}
+type failer = hx.Failer
 
-type replayFile struct {
-	Property string          `json:"property"`
-	Test     string          `json:"test"`
-	Message  string          `json:"message"`
-	Case     json.RawMessage `json:"case"`
-}
+type replayFile = hx.ReplayFile
 
-// violation writes the replay file (overwriting: rapid re-runs the minimal
-// case last, so the last file written is the minimum) and fails the test.
+// violation writes the replay file and fails the test (see hx.Violation).
 func violation(t failer, property, test string, c interface{}, format string, args ...any) {
-	msg := fmt.Sprintf(format, args...)
-	if dir := os.Getenv("VERIF_REPLAY_DIR"); dir != "" {
-		cb, err := json.Marshal(c)
-		if err != nil {
-			cb, _ = json.Marshal(fmt.Sprintf("unserialisable case: %v", err))
-		}
-		b, _ := json.MarshalIndent(replayFile{Property: property, Test: test, Message: msg, Case: cb}, "", " ")
-		_ = os.MkdirAll(dir, 0o755)
-		_ = os.WriteFile(filepath.Join(dir, test+".json"), b, 0o644)
-	}
-	t.Fatalf("VIOLATION-CANDIDATE property=%s test=%s: %s", property, test, msg)
+	hx.Violation(t, property, test, c, format, args...)
 }
 
 // replayers maps a test name to the function that re-runs one saved case
